@@ -599,7 +599,6 @@ void do_sample_dem(uint64_t k, Rng &rng, Stats &st, const Sandbox &sb) {
     int fd = pick_format(rng, shots), fo = pick_format(rng, shots), fe = pick_format(rng, shots);
     if (nd == 0 && fd == 1) fd = 0;
     if (no == 0 && fo == 1) fo = 0;
-    if (ne == 0 && fe == 1) fe = 0;
     sb.put("m.dem", text);
     std::vector<std::pair<std::string, std::string>> flags = {{"--in", sb.path("m.dem")}, {"--out", sb.path("out")}, {"--out_format", FN[fd]}, {"--obs_out", sb.path("obs")},
                                                               {"--obs_out_format", FN[fo]}, {"--err_out", sb.path("err")}, {"--err_out_format", FN[fe]},
@@ -617,7 +616,7 @@ void do_sample_dem(uint64_t k, Rng &rng, Stats &st, const Sandbox &sb) {
     else d.assign(shots, {});
     if (no > 0 || fo != 5) ok = ok && decode(sb.path("obs"), FMTS[fo], 0, 0, no, shots, o);
     else o.assign(shots, {});
-    if (ne > 0 || fe != 5) ok = ok && decode(sb.path("err"), FMTS[fe], ne, 0, 0, shots, e);
+    if (ne > 0 || (fe != 5 && fe != 1)) ok = ok && decode(sb.path("err"), FMTS[fe], ne, 0, 0, shots, e);
     else e.assign(shots, {});
     if (!ok || d.size() != shots || o.size() != shots || e.size() != shots) {
         out_x("`stim " + strip_dir(r.line, sb) + "`: outputs do not decode to " + std::to_string(shots) + " records each (det " + std::to_string(d.size()) + " obs " + std::to_string(o.size()) +
@@ -646,7 +645,7 @@ void do_sample_dem(uint64_t k, Rng &rng, Stats &st, const Sandbox &sb) {
     std::vector<std::pair<std::string, std::string>> f2 = {{"--in", sb.path("m.dem")}, {"--out", sb.path("out2")}, {"--out_format", FN[fd]}, {"--obs_out", sb.path("obs2")},
                                                            {"--obs_out_format", FN[fo]}, {"--replay_err_in", sb.path("err")}, {"--replay_err_in_format", FN[fe]},
                                                            {"--shots", std::to_string(shots)}, {"--seed", std::to_string(rng.below(1000000))}};
-    if (!(ne == 0 && (fe == 1 || fe == 5))) {
+    {
         auto r2 = run_cli("sample_dem", f2, rng.chance(0.3));
         if (r2.code != 0) out_x("`stim " + strip_dir(r2.line, sb) + "` (replay) failed: " + strip_dir(r2.err, sb).substr(0, 300));
         else {
